@@ -777,6 +777,56 @@ def rule_size_origin(ctx):
     ctx.floor(R, "memory descriptors emitted", n, 3)
 
 
+def rule_fresh_record(ctx, R="C01/fresh-record"):
+    """a record written inside a loop is built in that iteration: its origin has no loop-carried part.  A record hoisted out of
+    the loop and patched per iteration keeps whatever the patching forgets (e.g. the previous thread's stack size for a thread that
+    gets no stack), and then describes bytes that belong to another object"""
+    n = 0
+    for b in ctx.prog.bodies:
+        if not (b.short.startswith("linux::sections::") or b.short.startswith("linux::dso_debug") or b.short.startswith("dir_section")):
+            continue
+        loops = b.loops()
+        if not loops:
+            continue
+        o = None
+        for bi, t in b.calls(lambda c: c.is_(SET_AT) or (c.short or "").endswith("Vec::push")):
+            if not any(bi in body for body in loops.values()):
+                continue
+            o = o or Origin(b)
+            a = o.call_args(bi)
+            val = a[2] if CalleeView(t["callee"]).is_(SET_AT) else a[1]
+            if not any(isinstance(x, tuple) and x and x[0] == "agg" for x in walk(val)):
+                continue   # not a record (a plain number / location pushed to a list)
+            n += 1
+            # a loop-carried RECORD: the loop placeholder is the base that fields are patched into (loop(..){f := v}), or an alternative of the
+            # value itself — a loop-carried address or counter inside an argument of a call that produces the record is fine
+            def alts_(e):
+                e = strip(e)
+                if e[0] == "phi":
+                    for y in e[1]:
+                        yield from alts_(y)
+                else:
+                    yield e
+            carried = []
+            for alt in alts_(val):
+                base = alt
+                while isinstance(base, tuple) and base and base[0] == "upd":
+                    base = strip(base[1])
+                    if base[0] == "phi":
+                        for z in alts_(base):
+                            zz = z
+                            while zz[0] == "upd":
+                                zz = strip(zz[1])
+                            if zz[0] == "loop":
+                                carried.append(zz)
+                if isinstance(base, tuple) and base and base[0] == "loop":
+                    carried.append(base)
+            ctx.check(not carried, R, (b.short.split("::")[-2] + "::" + b.short.split("::")[-1], "#%d" % n), b.where(bi),
+                      "the record written in this loop is constructed in the same iteration",
+                      "the record written in this loop carries state over from the previous iteration (it is patched, not rebuilt): %s" % show(val)[:200])
+    ctx.floor(R, "records written inside loops", n, 4)
+
+
 def run(ctx):
     rule_size_origin(ctx)
     rule_dir_count(ctx)
@@ -785,6 +835,7 @@ def run(ctx):
     rule_index_bound(ctx)
     rule_rva_origin(ctx)
     rule_pos_append(ctx)
+    rule_fresh_record(ctx)
     # string blobs (module/thread/handle/link-map names, OS version): the length header is the byte length of the body that follows it
     from rules import c16
     c16.rule_string(ctx, R="C01/string-length")
